@@ -279,6 +279,8 @@ def run(ctx):
     # statement values that contain character entities (1 &lt; 2, 1 &amp; 3) mean the same under every spelling
     ent = [p for p in F.c12_raising("quick", rnd) if p["fam"].endswith(":entities")]
     progs += rnd.sample(ent, min(len(ent), 12 if quick else 200))
+    # what `attrs` holds does not depend on the spelling either (and never a declaration of a template-language namespace)
+    progs += [p for p in F.c01_extras("quick", rnd) if "attrs-" in p["fam"]]
     agg = run_family("C18plans", progs, ["x", "y", "error"], dev=dev, invariants=["WellBracketed"],
                      perms=(0, 100, 101, 200, 300, 301), timeout=3000)
     ctx.add_family(agg)
